@@ -232,7 +232,10 @@ func oracleWorld(stream, in, out string) {
 				return "vis:" + v
 			}
 			if stream == "scope" {
-				return w.oracleScope()
+				if v := w.oracleScope(); v != "" {
+					return v
+				}
+				return w.deferred
 			}
 			return ""
 		})
